@@ -2,7 +2,15 @@ package main
 
 import (
 	"encoding/json"
+	"errors"
+	"fmt"
+	"io"
+	"math/bits"
+	"math/rand"
+	"runtime"
+	"sync"
 
+	"github.com/biogo/hts/cram"
 	"github.com/biogo/hts/cram/encoding/itf8"
 	"github.com/biogo/hts/cram/encoding/ltf8"
 )
@@ -10,10 +18,18 @@ import (
 func init() { register("c20", c20) }
 
 type c20case struct {
-	Op  string `json:"op"`
-	V   int64  `json:"v"`
-	B   []int  `json:"b"`
-	Buf []int  `json:"buf"`
+	Op    string `json:"op"`
+	V     int64  `json:"v"`
+	B     []int  `json:"b"`
+	Buf   []int  `json:"buf"`
+	Mode  int    `json:"mode"`
+	Tail  int    `json:"tail"`
+	After []int  `json:"after"`
+	Ops   []int  `json:"ops"`
+	Lo    int64  `json:"lo"`
+	Hi    int64  `json:"hi"`
+	Seed  int64  `json:"seed"`
+	N     int    `json:"n"`
 }
 
 func c20(raw json.RawMessage) interface{} {
@@ -38,6 +54,510 @@ func c20(raw json.RawMessage) interface{} {
 	case "ltf8dec":
 		v, n, ok := ltf8.Decode(bytesOf(c.B))
 		return map[string]interface{}{"v": v, "n": n, "ok": ok}
+	case "stream":
+		return c20stream(&c)
+	case "sweep32":
+		return c20sweep32(c.Lo, c.Hi)
+	case "batch64":
+		return c20batch64(c.Seed, c.N)
+	case "decbatch":
+		return c20decbatch(c.Seed, c.N)
 	}
 	return map[string]interface{}{"bad_case": "op"}
+}
+
+// ---- stream readers of cram.go ------------------------------------------------
+
+var c20errFault = errors.New("c20: fault of the underlying reader")
+
+// c20reader is the byte source under the errorReader. It counts what it hands
+// out and remembers the furthest offset it was ever asked for.
+//
+//	mode 0: as much as asked for; 1: one byte per call; 2: as 0, and the last
+//	bytes come together with the final error; 3: half of what is asked for.
+type c20reader struct {
+	data    []byte
+	pos     int
+	mode    int
+	tail    error // reported when the data is used up
+	faultAt int   // offset at which a transient fault is reported once (-1: never)
+	reqend  int
+	calls   int
+}
+
+func (r *c20reader) Read(p []byte) (int, error) {
+	r.calls++
+	if len(p) == 0 {
+		return 0, nil
+	}
+	if r.pos+len(p) > r.reqend {
+		r.reqend = r.pos + len(p)
+	}
+	avail := len(r.data) - r.pos
+	if r.faultAt >= 0 {
+		avail = r.faultAt - r.pos
+		if avail == 0 {
+			r.faultAt = -1
+			return 0, c20errFault
+		}
+	}
+	if avail == 0 {
+		return 0, r.tail
+	}
+	n := len(p)
+	switch r.mode {
+	case 1:
+		n = 1
+	case 3:
+		n = (len(p) + 1) / 2
+	}
+	if n > avail {
+		n = avail
+	}
+	copy(p, r.data[r.pos:r.pos+n])
+	r.pos += n
+	if r.mode == 2 && r.faultAt == r.pos {
+		// announced early, together with the last bytes before it; it is
+		// reported again (and then cleared) by the next call
+		return n, c20errFault
+	}
+	if r.mode == 2 && r.pos == len(r.data) {
+		return n, r.tail
+	}
+	return n, nil
+}
+
+func c20errClass(err error) int {
+	switch {
+	case err == nil:
+		return 0
+	case err == io.EOF:
+		return 1
+	case err == io.ErrUnexpectedEOF:
+		return 2
+	case err == c20errFault:
+		return 4
+	}
+	return 3
+}
+
+func c20stream(c *c20case) interface{} {
+	// tail 1: the bytes B, then io.EOF. Otherwise: the bytes B, then a fault
+	// reported once, then the bytes After, then io.EOF.
+	src := &c20reader{data: bytesOf(c.B), mode: c.Mode, tail: io.EOF, faultAt: -1}
+	if c.Tail != 1 {
+		src.faultAt = len(src.data)
+		src.data = append(src.data, bytesOf(c.After)...)
+	}
+	er := cram.VerifNewErrorReader(src)
+	steps := make([]map[string]interface{}, 0, len(c.Ops))
+	for _, op := range c.Ops {
+		var vals []int64
+		var err error
+		switch op {
+		case 0:
+			var v int32
+			v, err = er.ITF8()
+			vals = []int64{int64(v)}
+		case 1:
+			var v int64
+			v, err = er.LTF8()
+			vals = []int64{v}
+		default:
+			var s []int32
+			s, err = er.ITF8Slice()
+			vals = make([]int64, len(s))
+			for i, x := range s {
+				vals[i] = int64(x)
+			}
+		}
+		st := map[string]interface{}{"vals": vals, "err": c20errClass(err), "consumed": src.pos, "reqend": src.reqend}
+		if err != nil {
+			st["msg"] = err.Error()
+		}
+		steps = append(steps, st)
+	}
+	return map[string]interface{}{"steps": steps}
+}
+
+// ---- reference codec, written from the CRAM specification (section 2.3) --------
+//
+// A value of b significant bits needs ceil(b/7) bytes (at least one); the first
+// byte starts with one 1 bit per extra byte, then a 0 bit, then the top bits of
+// the value; the other bytes follow most significant first. ITF-8 stops at five
+// bytes: the fifth carries only the last four bits, in its low nibble. LTF-8
+// goes on to nine bytes; with eight and nine bytes the first byte holds no
+// value bits (0xfe, 0xff).
+
+func c20refITF8(v int32, store *[9]byte) []byte {
+	u := uint32(v)
+	n := (bits.Len32(u) + 6) / 7
+	if n == 0 {
+		n = 1
+	}
+	if n >= 5 {
+		store[0], store[1], store[2], store[3], store[4] = 0xf0|byte(u>>28), byte(u>>20), byte(u>>12), byte(u>>4), byte(u&0x0f)
+		return store[:5]
+	}
+	out := store[:n]
+	for i := n - 1; i >= 0; i-- {
+		out[i] = byte(u)
+		u >>= 8
+	}
+	out[0] |= byte(0xff << uint(9-n))
+	return out
+}
+
+func c20refLTF8(v int64, store *[9]byte) []byte {
+	u := uint64(v)
+	n := (bits.Len64(u) + 6) / 7
+	if n == 0 {
+		n = 1
+	}
+	if n > 9 {
+		n = 9
+	}
+	out := store[:n]
+	for i := n - 1; i >= 1; i-- {
+		out[i] = byte(u)
+		u >>= 8
+	}
+	out[0] = byte(0xff << uint(9-n))
+	if n < 8 {
+		out[0] |= byte(u)
+	}
+	return out
+}
+
+func c20leadOnes(b byte, max int) int {
+	n := 0
+	for n < max && b&(0x80>>uint(n)) != 0 {
+		n++
+	}
+	return n
+}
+
+func c20refDecITF8(b []byte) (int32, int, bool) {
+	if len(b) == 0 {
+		return 0, 0, false
+	}
+	n := c20leadOnes(b[0], 4) + 1
+	if len(b) < n {
+		return 0, n, false
+	}
+	var u uint32
+	if n == 5 {
+		u = uint32(b[0]&0x0f)<<28 | uint32(b[1])<<20 | uint32(b[2])<<12 | uint32(b[3])<<4 | uint32(b[4]&0x0f)
+	} else {
+		u = uint32(b[0]) & (0xff >> uint(n))
+		for _, x := range b[1:n] {
+			u = u<<8 | uint32(x)
+		}
+	}
+	return int32(u), n, true
+}
+
+func c20refDecLTF8(b []byte) (int64, int, bool) {
+	if len(b) == 0 {
+		return 0, 0, false
+	}
+	n := c20leadOnes(b[0], 8) + 1
+	if len(b) < n {
+		return 0, n, false
+	}
+	var u uint64
+	if n < 8 {
+		u = uint64(b[0]) & (0xff >> uint(n))
+	}
+	for _, x := range b[1:n] {
+		u = u<<8 | uint64(x)
+	}
+	return int64(u), n, true
+}
+
+type c20bad struct {
+	Op   string `json:"op"`
+	V    int64  `json:"v"`
+	B    []int  `json:"b,omitempty"`
+	What string `json:"what"`
+}
+
+// c20checkITF8 judges the library on one int32 against the reference codec.
+func c20checkITF8(v int32, buf, junk []byte) string {
+	var store [9]byte
+	ref := c20refITF8(v, &store)
+	for i := range buf {
+		buf[i] = 0xa5
+	}
+	n := itf8.Encode(buf, v)
+	if n != len(ref) || itf8.Len(v) != len(ref) {
+		return fmt.Sprintf("length: Encode wrote %d, Len says %d, specification %d", n, itf8.Len(v), len(ref))
+	}
+	for i := 0; i < n; i++ {
+		g := buf[i]
+		if i == 4 {
+			g &= 0x0f
+		}
+		if g != ref[i] {
+			return fmt.Sprintf("bytes: Encode wrote % x, specification % x", buf[:n], ref)
+		}
+	}
+	for i := n; i < len(buf); i++ {
+		if buf[i] != 0xa5 {
+			return fmt.Sprintf("overwrite: Encode changed byte %d beyond the %d it reports", i, n)
+		}
+	}
+	if d, dn, ok := itf8.Decode(buf[:n]); !ok || d != v || dn != n {
+		return fmt.Sprintf("roundtrip: Decode(Encode(v)) = (%d, %d, %v)", d, dn, ok)
+	}
+	// the reference encoding followed by other bytes must decode to v as well
+	copy(junk, ref)
+	if n == 5 {
+		junk[4] |= byte(v>>3) << 4 // the high nibble of a fifth byte is not significant
+	}
+	if d, dn, ok := itf8.Decode(junk[:n+int(uint32(v)%3)]); !ok || d != v || dn != n {
+		return fmt.Sprintf("decode: Decode(% x) = (%d, %d, %v)", junk[:n], d, dn, ok)
+	}
+	return ""
+}
+
+func c20checkLTF8(v int64, buf, junk []byte) string {
+	var store [9]byte
+	ref := c20refLTF8(v, &store)
+	for i := range buf {
+		buf[i] = 0xa5
+	}
+	n := ltf8.Encode(buf, v)
+	if n != len(ref) || ltf8.Len(v) != len(ref) {
+		return fmt.Sprintf("length: Encode wrote %d, Len says %d, specification %d", n, ltf8.Len(v), len(ref))
+	}
+	for i := 0; i < n; i++ {
+		if buf[i] != ref[i] {
+			return fmt.Sprintf("bytes: Encode wrote % x, specification % x", buf[:n], ref)
+		}
+	}
+	for i := n; i < len(buf); i++ {
+		if buf[i] != 0xa5 {
+			return fmt.Sprintf("overwrite: Encode changed byte %d beyond the %d it reports", i, n)
+		}
+	}
+	if d, dn, ok := ltf8.Decode(buf[:n]); !ok || d != v || dn != n {
+		return fmt.Sprintf("roundtrip: Decode(Encode(v)) = (%d, %d, %v)", d, dn, ok)
+	}
+	copy(junk, ref)
+	if d, dn, ok := ltf8.Decode(junk[:n+int(uint64(v)%3)]); !ok || d != v || dn != n {
+		return fmt.Sprintf("decode: Decode(% x) = (%d, %d, %v)", junk[:n], d, dn, ok)
+	}
+	return ""
+}
+
+type c20collector struct {
+	mu      sync.Mutex
+	bad     []c20bad
+	nbad    int64
+	checked int64
+}
+
+func (c *c20collector) add(b c20bad) {
+	c.mu.Lock()
+	c.nbad++
+	if len(c.bad) < 8 {
+		c.bad = append(c.bad, b)
+	}
+	c.mu.Unlock()
+}
+
+func (c *c20collector) result() interface{} {
+	return map[string]interface{}{"checked": c.checked, "nbad": c.nbad, "bad": c.bad, "workers": runtime.GOMAXPROCS(0)}
+}
+
+// c20guard runs f and reports a run-time panic of the library as a failure of value v.
+func c20guard(col *c20collector, op string, v int64, f func() string) {
+	defer func() {
+		if r := recover(); r != nil {
+			col.add(c20bad{Op: op, V: v, What: fmt.Sprint("panic: ", r)})
+		}
+	}()
+	if w := f(); w != "" {
+		col.add(c20bad{Op: op, V: v, What: w})
+	}
+}
+
+// c20sweep32 checks every int32 in [lo, hi) (as int64 bounds), in parallel.
+func c20sweep32(lo, hi int64) interface{} {
+	col := &c20collector{}
+	workers := runtime.GOMAXPROCS(0)
+	if workers > 16 {
+		workers = 16
+	}
+	const chunk = 1 << 20
+	next := lo
+	var mu sync.Mutex
+	var wg sync.WaitGroup
+	for w := 0; w < workers; w++ {
+		wg.Add(1)
+		go func() {
+			defer wg.Done()
+			buf := make([]byte, 8)
+			junk := make([]byte, 8)
+			var done int64
+			for {
+				mu.Lock()
+				a := next
+				next += chunk
+				mu.Unlock()
+				if a >= hi {
+					break
+				}
+				b := a + chunk
+				if b > hi {
+					b = hi
+				}
+				for x := a; x < b; {
+					x = c20sweepRun(col, x, b, buf, junk)
+				}
+				done += b - a
+			}
+			col.mu.Lock()
+			col.checked += done
+			col.mu.Unlock()
+		}()
+	}
+	wg.Wait()
+	return col.result()
+}
+
+// c20sweepRun checks x, x+1, ... below b and returns the value to go on with;
+// a run-time panic of the library is recorded for the value that raised it.
+func c20sweepRun(col *c20collector, x, b int64, buf, junk []byte) (next int64) {
+	cur := x
+	defer func() {
+		if r := recover(); r != nil {
+			col.add(c20bad{Op: "itf8enc", V: cur, What: fmt.Sprint("panic: ", r)})
+			next = cur + 1
+		}
+	}()
+	for ; cur < b; cur++ {
+		if w := c20checkITF8(int32(cur), buf, junk); w != "" {
+			col.add(c20bad{Op: "itf8enc", V: cur, What: w})
+		}
+	}
+	return b
+}
+
+// c20rand64 draws an int64 whose magnitude class (encoded length) is uniform.
+func c20rand64(rng *rand.Rand) int64 {
+	u := rng.Uint64()
+	switch k := rng.Intn(12); {
+	case k < 9:
+		top := []uint{7, 14, 21, 28, 35, 42, 49, 56, 64}[k]
+		if top < 64 {
+			u &= 1<<top - 1
+		}
+		if k > 0 && rng.Intn(4) > 0 {
+			u |= 1 << (top - 1 - uint(rng.Intn(7))) // stay in the class most of the time
+		}
+	case k == 9:
+		u = 1<<uint(rng.Intn(64)) + uint64(rng.Intn(3)) - 1
+	case k == 10:
+		u = -u >> uint(rng.Intn(8))
+	}
+	return int64(u)
+}
+
+func c20batch64(seed int64, n int) interface{} {
+	col := &c20collector{}
+	workers := runtime.GOMAXPROCS(0)
+	if workers > 16 {
+		workers = 16
+	}
+	var wg sync.WaitGroup
+	for w := 0; w < workers; w++ {
+		wg.Add(1)
+		go func(w int) {
+			defer wg.Done()
+			rng := rand.New(rand.NewSource(seed*131 + int64(w)))
+			buf := make([]byte, 12)
+			junk := make([]byte, 12)
+			for i := 0; i < n/workers; i++ {
+				v := c20rand64(rng)
+				c20guard(col, "ltf8enc", v, func() string { return c20checkLTF8(v, buf, junk) })
+			}
+			col.mu.Lock()
+			col.checked += int64(n / workers)
+			col.mu.Unlock()
+		}(w)
+	}
+	wg.Wait()
+	return col.result()
+}
+
+// c20decOne runs one decoder check; a run-time panic counts as a failure of that decoder on b.
+func c20decOne(col *c20collector, op string, b []byte, f func() string) {
+	defer func() {
+		if r := recover(); r != nil {
+			col.add(c20bad{Op: op, B: ints(b), What: fmt.Sprint("panic: ", r)})
+		}
+	}()
+	if w := f(); w != "" {
+		col.add(c20bad{Op: op, B: ints(b), What: w})
+	}
+}
+
+// c20decbatch decodes random byte strings (every first-byte class, lengths
+// 0..11) with both codecs and compares with the reference decoders, also on
+// the string cut to the announced length.
+func c20decbatch(seed int64, n int) interface{} {
+	col := &c20collector{}
+	workers := runtime.GOMAXPROCS(0)
+	if workers > 16 {
+		workers = 16
+	}
+	firsts := []byte{0x00, 0x7f, 0x80, 0xbf, 0xc0, 0xdf, 0xe0, 0xef, 0xf0, 0xf7, 0xf8, 0xfb, 0xfc, 0xfd, 0xfe, 0xff}
+	var wg sync.WaitGroup
+	for w := 0; w < workers; w++ {
+		wg.Add(1)
+		go func(w int) {
+			defer wg.Done()
+			rng := rand.New(rand.NewSource(seed*257 + int64(w)))
+			for i := 0; i < n/workers; i++ {
+				b := make([]byte, rng.Intn(12))
+				rng.Read(b)
+				if len(b) > 0 && rng.Intn(3) > 0 {
+					b[0] = firsts[rng.Intn(len(firsts))]
+				}
+				c20decOne(col, "itf8dec", b, func() string {
+					v, k, ok := itf8.Decode(b)
+					rv, rk, rok := c20refDecITF8(b)
+					if v != rv || k != rk || ok != rok {
+						return fmt.Sprintf("Decode = (%d, %d, %v), specification (%d, %d, %v)", v, k, ok, rv, rk, rok)
+					}
+					if ok {
+						if v2, k2, ok2 := itf8.Decode(b[:k]); v2 != v || k2 != k || !ok2 {
+							return "Decode depends on bytes beyond the announced length"
+						}
+					}
+					return ""
+				})
+				c20decOne(col, "ltf8dec", b, func() string {
+					v, k, ok := ltf8.Decode(b)
+					rv, rk, rok := c20refDecLTF8(b)
+					if v != rv || k != rk || ok != rok {
+						return fmt.Sprintf("Decode = (%d, %d, %v), specification (%d, %d, %v)", v, k, ok, rv, rk, rok)
+					}
+					if ok {
+						if v2, k2, ok2 := ltf8.Decode(b[:k]); v2 != v || k2 != k || !ok2 {
+							return "Decode depends on bytes beyond the announced length"
+						}
+					}
+					return ""
+				})
+			}
+			col.mu.Lock()
+			col.checked += int64(n / workers)
+			col.mu.Unlock()
+		}(w)
+	}
+	wg.Wait()
+	return col.result()
 }
